@@ -14,7 +14,8 @@ import Glom.Model.C09Env
          | {"spec":…, "default":…, "hist":[HStep…], "spec_built":…, "hist_built":[HStep…],
             "impl_hist":[Obs|null…]}  -- one Match object; HStep: {"call":V} | {"register":[abc,class]}
          every kind: optional "world":[[class,base]…] (user classes declared by the case),
-                     optional "copy":"copy"|"deepcopy"|"pickle" (the Match object used is that copy)
+                     optional "copy":"copy"|"deepcopy"|"pickle" (the Match object used is that copy;
+                     "copy_used": the way of copying the harness actually applied)
 -/
 namespace Glom.C09.Driver
 open Lean Glom Glom.MV Glom.C10 Glom.C10.Driver Glom.C09
@@ -49,14 +50,6 @@ def optObsAgree : Option Obs → Option Obs → Bool
   | some a, some b => obsAgree a b
   | _, _ => false
 
-/-- `[[class, base]…]`: the user classes the case declares -/
-def worldOfJson (j : Json) : Except String (List (String × String)) := do
-  match j.getObjVal? "world" with
-  | .ok (.arr a) => a.toList.mapM (fun e => match e with
-      | .arr #[.str k, .str b] => pure (k, b)
-      | _ => throw s!"bad class declaration {e.compress}")
-  | _ => pure []
-
 def run (j : Json) : Except String Json := do
   let specJ ← (match j.getObjVal? "spec_built" with
     | .ok .null => j.getObjVal? "spec"
@@ -74,7 +67,7 @@ def run (j : Json) : Except String Json := do
   -- the Match object that is used is a copy (copy.copy / copy.deepcopy / pickle round trip) of
   -- the one that was built: the MODEL runs the copy as the extracted marker table says it comes
   -- out, the PROPERTY is judged against the pattern as written (a copy decides like the original)
-  let how : String := match j.getObjValAs? String "copy" with | .ok h => h | .error _ => "none"
+  let how : String := match j.getObjValAs? String "copy_used" with | .ok h => h | .error _ => "none"
   let ids := facts9.identity
   let pc := if how == "none" then p else copySpec ids how p
   let dc := if how == "none" || how == "copy" then d else copyDflt (markerKept ids "_MISSING" how) "_MISSING" d
